@@ -18,7 +18,7 @@ func checkC12(tier string, seed int64) int {
 	}
 	c.Eng.MaxPaths = 400000
 	c.Eng.Tactic = "(then simplify propagate-values solve-eqs qfbv)"
-	names := []string{"verifH_C12_set", "verifH_C12_get", "verifH_C12_assign", "verifH_C12_delete", "verifH_C12_copy", "verifH_C12_thresholds", "verifH_C12_history"}
+	names := []string{"verifH_C12_set", "verifH_C12_get", "verifH_C12_assign", "verifH_C12_assign_typed", "verifH_C12_delete", "verifH_C12_copy", "verifH_C12_thresholds", "verifH_C12_history"}
 	agg := NewAgg()
 	var res []lemmaResult
 	for _, n := range names {
